@@ -90,6 +90,8 @@ func main() {
 	samples := flag.Int("samples", 1, "number of runs whose sample is reported")
 	deadline := flag.Int64("deadline", 0, "unix time after which no new run is started")
 	verbose := flag.Bool("v", false, "verbose")
+	flag.StringVar(&straceChildTarget, "straceChild", "", "strace child mode: path of the operation that gets the injected syscall failure")
+	flag.IntVar(&straceChildIdx, "straceIdx", 0, "strace child mode: ordinal of the operation")
 	flag.Parse()
 
 	setupRuntime(*tsan)
